@@ -1,4 +1,5 @@
 import Verif.Generated.FactsOK.Common
+import Verif.Generated.FactsOK.SrcFixer
 import Verif.Properties.C19
 
 namespace Generated
